@@ -413,3 +413,39 @@ where
 {
     Entry { id, describe: <VecDeque<T> as Model>::describe, size_zero: || false, rust, run: run_deque::<T> }
 }
+
+// ---------------------------------------------------------------- IndexSet / IndexMap: `==` versus bytes
+/// indexeq ELEMS(hex bytes)  ->  "set eq=B bytes=B first=HEX second=HEX;map eq=B bytes=B"
+/// Two IndexSet<u8> / IndexMap<u8, u16> with the same entries inserted forwards and backwards: indexmap's
+/// `PartialEq` ignores the order, the serializer writes the entries in insertion order.
+#[cfg(feature = "cfg_std")]
+pub fn run_untyped(op: &str, args: &[&str]) -> Option<String> {
+    match (op, args) {
+        ("indexeq", [h]) => {
+            let mut l: Vec<u8> = (0..h.len() / 2).filter_map(|i| u8::from_str_radix(&h[2 * i..2 * i + 2], 16).ok()).collect();
+            l.sort();
+            l.dedup();
+            let a: indexmap::IndexSet<u8> = l.iter().cloned().collect();
+            let b: indexmap::IndexSet<u8> = l.iter().rev().cloned().collect();
+            let (ba, bb) = (borsh::to_vec(&a).ok()?, borsh::to_vec(&b).ok()?);
+            let ma: indexmap::IndexMap<u8, u16> = l.iter().map(|k| (*k, *k as u16 * 3)).collect();
+            let mb: indexmap::IndexMap<u8, u16> = l.iter().rev().map(|k| (*k, *k as u16 * 3)).collect();
+            let (bma, bmb) = (borsh::to_vec(&ma).ok()?, borsh::to_vec(&mb).ok()?);
+            let hx = |b: &[u8]| b.iter().map(|x| format!("{:02x}", x)).collect::<String>();
+            Some(format!(
+                "set eq={} bytes={} first={} second={};map eq={} bytes={}",
+                a == b,
+                ba == bb,
+                hx(&ba),
+                hx(&bb),
+                ma == mb,
+                bma == bmb
+            ))
+        }
+        _ => None,
+    }
+}
+#[cfg(not(feature = "cfg_std"))]
+pub fn run_untyped(_op: &str, _args: &[&str]) -> Option<String> {
+    None
+}
